@@ -109,6 +109,42 @@ def run(ck, ctx):
         ck.floor("R17.2", n, 14, "staged-writer invocations that mutate the table")
     ck.guard(r172, "R17.2")
 
+    # ---------------------------------------------------------------- R17.6 the table owns what it stores
+    def r176():
+        adds = [(CG.effects.index(e), e) for e in muts if e.kind == "mcall-mutate" and e.data.get("name") in
+                ("add_columns", "add_column")]
+        ck.floor("R17.6", len(adds), 6, "column additions to the results table")
+        shared = 0
+        for idx, e in adds:
+            pos, kws = call_args(e.node)
+            cp = kws.get("copy")
+            copies = cp is None or (cp.op == "Const" and cp.attr is True)
+            if copies:
+                continue
+            shared += 1
+            cols = pos[0] if pos else None
+            items = list(cols.args) if cols is not None and cols.op in ("List", "Tuple") else ([cols] if cols is not None else [])
+            stored = {id(r_) for c_ in items for r_ in I.roots(c_)} | {id(c_) for c_ in items}
+            later = []
+            for e2 in CG.effects[idx + 1:]:
+                if e2.kind != "write" or touches_table(e2):
+                    continue
+                rs = list(e2.data.get("roots", []) or [])
+                if e2.node is not None:
+                    rs += list(I.roots(e2.node))
+                if any(id(r_) in stored for r_ in rs):
+                    later.append(e2)
+            for e2 in later:
+                f2 = e2.funcs()[-1] if e2.funcs() else "?"
+                ck.ob("R17.6", f"an array stored without a copy is not modified afterwards [{f2} at {e2.where()}]", False,
+                      e2.node, f2, f"the column added at {e.where()} shares memory with this array (copy=False): the "
+                      "final table changes without the file being rewritten, earlier stage files no longer match it",
+                      construct=f"{f2}: in-place write to an array stored with copy=False")
+        ck.ob("R17.6", "the table owns its columns: every column is copied on addition, or never modified afterwards",
+              not [o for o in ck.obligations if o.rule == "R17.6" and o.ok is False], table, func,
+              f"{len(adds)} addition(s), {shared} without a copy")
+    ck.guard(r176, "R17.6")
+
     # ---------------------------------------------------------------- R17.3 who may write
     def r173():
         for e in file_w:
